@@ -409,7 +409,7 @@ impl<'w, 'i, W: Write> SerializeSeq for Seq<'w, 'i, W> {
     where
         T: ?Sized + Serialize,
     {
-        self.last = value.serialize(self.ser.new_seq_element_serializer(self.last.is_text()))?;
+        self.last = value.serialize(self.ser.new_seq_element_serializer(!self.last.is_text()))?;
         // Write indent for next element if indents are used
         self.ser.write_indent = self.last.allow_indent();
         Ok(())
